@@ -163,16 +163,19 @@ def real_spec(draw):
         if a['bs'] > 1:
             a['bw'] = 0.01
     shape = draw(st.sampled_from(['single', 'seq', 'ens']))
-    b = {'t': 'w', 'tag': 'B', 'n': 1, 'pre': False, 'proc': draw(st.booleans())}
+    b = {'t': 'w', 'tag': 'B', 'n': 1, 'pre': draw(st.booleans()), 'proc': draw(st.booleans())}
+    if draw(st.booleans()):
+        b['bs'] = 2
+        b['bw'] = 0.01
     tree = a if shape == 'single' else ({'t': 'seq', 'ch': [a, b]} if shape == 'seq' else {'t': 'ens', 'ff': draw(st.booleans()), 'ch': [a, b]})
     nodes = sv.tree_tags(tree)
     nreq = draw(st.integers(2, 8))
     reqs = {}
     for rid in range(nreq):
         plan = {'d': {}, 'f': {}, 'pf': {}, 'r': 0}
-        if draw(st.integers(0, 2)) == 0:
+        if draw(st.integers(0, 1)) == 0:
             n = draw(st.sampled_from(nodes))
-            if n.get('pre') and draw(st.booleans()):
+            if n.get('pre') and draw(st.integers(0, 2)) > 0:
                 plan['pf'][n['tag']] = draw(st.sampled_from(sv.EXC_NAMES))
             else:
                 plan['f'][n['tag']] = draw(st.sampled_from(sv.EXC_NAMES))
